@@ -1169,6 +1169,7 @@ def _hkey(name, history):
 
 
 PAIRS = [('A', 'Abe')]
+_PAIR_CACHE = {}
 RELOCATABLE_FILES = ['testfiles_for_unittests/arm_exidx_test.o']      # REL relocations against symbols with values
 
 RANDOM_FILES = [
@@ -1290,6 +1291,17 @@ def gen(ctx):
     depth = ctx.scale(int(os.environ.get('C10_DEPTH', '4')), 8)
     budget = ctx.scale(200000, 3000000)
     stats = ctx.c10_stats = {}
+    # two differently configured file objects in one process (other byte order): every interleaving of their
+    # queries up to the depth bound; each answer is compared with the stateless answer for ITS file
+    for nx, ny in PAIRS:
+        mx, my = load_file(nx), load_file(ny)
+        if mx.get('broken') or my.get('broken'):
+            continue
+        sym = [(0, op) for op in pair_alphabet(mx)] + [(1, op) for op in pair_alphabet(my)]
+        level = [[]]
+        for _ in range(ctx.scale(3, 4)):
+            level = [h + [s] for h in level for s in sym]
+            cases += [('pair', [nx + '+' + ny, [[w, op] for w, op in h]]) for h in level]
     for name in ('A', 'B', 'C'):
         meta = load_file(name)
         if meta.get('broken'):
@@ -1320,23 +1332,12 @@ def gen(ctx):
             continue
         if not (meta.get('refetch') and meta['has_dwarf'] and meta['units']):
             continue
-        edges, nstates, closed = explore(meta, 'DR', depth)
-        stats['%s/DR' % name.split('/')[-1]] = dict(depth=depth, states=nstates, edges=len(edges), closed=closed,
+        edges, nstates, closed = explore(meta, 'DR', min(depth, 3))
+        stats['%s/DR' % name.split('/')[-1]] = dict(depth=min(depth, 3), states=nstates, edges=len(edges), closed=closed,
                                                      alphabet=len(alphabet(meta, 'DR')))
         for h, a, st in edges:
             _CACHE[_hkey(name, h)] = (a, st)
             cases.append(('bfs', [name, h]))
-    # two differently configured file objects in one process (other byte order): every interleaving of their
-    # queries up to the depth bound; each answer is compared with the stateless answer for ITS file
-    for nx, ny in PAIRS:
-        mx, my = load_file(nx), load_file(ny)
-        if mx.get('broken') or my.get('broken'):
-            continue
-        sym = [(0, op) for op in pair_alphabet(mx)] + [(1, op) for op in pair_alphabet(my)]
-        level = [[]]
-        for _ in range(ctx.scale(3, 4)):
-            level = [h + [s] for h in level for s in sym]
-            cases += [('pair', [nx + '+' + ny, [[w, op] for w, op in h]]) for h in level]
     # long random histories with a Disturb after every call
     n_hist = ctx.scale(1, 6)
     total = ctx.scale(1000, 100000)
@@ -1429,7 +1430,10 @@ def evaluate_pairs(ctx, cases, idxs):
             wf, nodef, fuel_ok = ctx.driver.one(['wf', m['desc'], _fuel(m)])
             wfs.append(bool(wf) and bool(fuel_ok))
         hs = [[(w, op) for w, op in cases[i][1][1]] for i in ids_]
-        impl_all = run_pairs([(nx, ny, h) for h in hs])
+        impl_all = [_PAIR_CACHE.get(repr(cases[i][1])) for i in ids_]
+        miss = [n for n, a in enumerate(impl_all) if a is None]
+        for n, a in zip(miss, run_pairs([(nx, ny, hs[n]) for n in miss])):
+            impl_all[n] = a
         subs = [[[op for w, op in h if w == k] for h in hs] for k in (0, 1)]
         res = [drv_runs(ctx, metas[k], subs[k]) if any(subs[k]) else [] for k in (0, 1)]
         for n, (i, h, impl) in enumerate(zip(ids_, hs, impl_all)):
